@@ -29,3 +29,29 @@ func firstLines(s string, n int) string {
 	}
 	return strings.Join(l, "\n")
 }
+
+// OnceMonitor (C06.once): effects happen at most once per release even under crashes and API faults:
+// never two live canary Deployments, never two BatchReleases.
+type OnceMonitor struct{ BaseMonitor }
+
+func (OnceMonitor) ID() string { return "C06.once" }
+
+func (OnceMonitor) OnWrite(x *Ctx, w *Write) {
+	if w.Verb != "create" {
+		return
+	}
+	switch w.Key.GVR.Resource {
+	case "deployments":
+		n := 0
+		for _, o := range x.W.Store.PeekAll("deployments") {
+			a := accessor(o)
+			if a.GetNamespace() == x.Sc.ns() && a.GetName() != AppName && a.GetDeletionTimestamp() == nil {
+				n++
+			}
+		}
+		x.Count("C06 canary Deployment creations judged")
+		if n > 1 {
+			x.Violate("C06/once/two-live-canary-deployments", "a second canary Deployment was created while one is still alive")
+		}
+	}
+}
